@@ -221,7 +221,7 @@ theorem rowE_id (p q : K) (m i : ℕ) (hi : i < m + 2) :
     have : i = 0 ∨ i = 1 := by omega
     rcases this with rfl | rfl
     · simp [rouwBaseFn]
-    · simp [rouwBaseFn]; ring
+    · simp [rouwBaseFn]
   | succ m ih =>
     rcases Nat.eq_zero_or_pos i with rfl | hpos
     · rw [rowE_succ_first, hs m 0 (by omega), ih 0 (by omega)]
@@ -267,6 +267,51 @@ theorem rowE_sq (p q : K) (m i : ℕ) (hi : i < m + 2) :
         rw [rowE_succ_interior p q m i hi', hs m (i + 1) (by omega), hs m i (by omega),
           ih (i + 1) (by omega), ih i (by omega)]
         push_cast; field_simp; ring
+
+end
+
+section
+variable {K : Type} [Field K] [LinearOrder K] [IsStrictOrderedRing K]
+
+theorem rouwStepFn_nonneg (k : ℕ) (p q : K) (hp0 : 0 ≤ p) (hp1 : p ≤ 1) (hq0 : 0 ≤ q) (hq1 : q ≤ 1)
+    (T : ℕ → ℕ → K) (hT : ∀ i j, i < k → j < k → 0 ≤ T i j) (i j : ℕ) (hi : i < k + 1) (hj : j < k + 1) :
+    0 ≤ rouwStepFn k p q T i j := by
+  have hp' : 0 ≤ 1 - p := by linarith
+  have hq' : 0 ≤ 1 - q := by linarith
+  have h1 : 0 ≤ (if i < k ∧ j < k then p * T i j else 0) := by
+    split_ifs with h
+    · exact mul_nonneg hp0 (hT i j h.1 h.2)
+    · exact le_rfl
+  have h2 : 0 ≤ (if i < k ∧ 1 ≤ j then (1 - p) * T i (j - 1) else 0) := by
+    split_ifs with h
+    · exact mul_nonneg hp' (hT i (j - 1) h.1 (by omega))
+    · exact le_rfl
+  have h3 : 0 ≤ (if 1 ≤ i ∧ j < k then (1 - q) * T (i - 1) j else 0) := by
+    split_ifs with h
+    · exact mul_nonneg hq' (hT (i - 1) j (by omega) h.2)
+    · exact le_rfl
+  have h4 : 0 ≤ (if 1 ≤ i ∧ 1 ≤ j then q * T (i - 1) (j - 1) else 0) := by
+    split_ifs with h
+    · exact mul_nonneg hq0 (hT (i - 1) (j - 1) (by omega) (by omega))
+    · exact le_rfl
+  have hs := add_nonneg (add_nonneg (add_nonneg h1 h2) h3) h4
+  unfold rouwStepFn
+  by_cases hc : 1 ≤ i ∧ i < k
+  · simp only [if_pos hc]
+    exact div_nonneg hs (by norm_num)
+  · simp only [if_neg hc]
+    exact hs
+
+theorem rouwMat_nonneg (p q : K) (hp0 : 0 ≤ p) (hp1 : p ≤ 1) (hq0 : 0 ≤ q) (hq1 : q ≤ 1)
+    (m i j : ℕ) (hi : i < m + 2) (hj : j < m + 2) : 0 ≤ (rouwMat p q m).get i j := by
+  induction m generalizing i j with
+  | zero =>
+    rw [rouwMat_get_zero p q i j hi hj]
+    unfold rouwBaseFn
+    split_ifs <;> linarith
+  | succ m ih =>
+    rw [rouwMat_get_succ p q m i j hi hj]
+    exact rouwStepFn_nonneg (m + 2) p q hp0 hp1 hq0 hq1 _ (fun i j hi hj => ih i j hi hj) i j hi hj
 
 end
 
